@@ -37,7 +37,7 @@ func (w *scriptW) WriteAt(p []byte, off int64) (int, error) {
 		}
 		err = errInj
 	}
-	w.calls = append(w.calls, J{"off": num(off), "p": bytesJ(p), "k": k, "e": w.fail})
+	w.calls = append(w.calls, J{"off": off, "p": bytesJ(p), "k": k, "e": w.fail})
 	return k, err
 }
 
@@ -72,6 +72,11 @@ func execSW(in In, em *Emitter) {
 	var w io.Writer
 	var full swAll
 	var sized interface{ Size() int64 }
+	// All offsets are logged relative to the section start (the machine is translation invariant), so that
+	// sections anywhere in the int64 range, including right below MaxInt64, stay inside TLC's integers.
+	var base int64
+	rel := func(x int64) int64 { return num(x - base) }
+	const maxInt64 = int64(^uint64(0) >> 1)
 	for _, op := range in.L("ops") {
 		k := op.S("k")
 		ev := J{}
@@ -86,14 +91,20 @@ func execSW(in In, em *Emitter) {
 		switch k {
 		case "New":
 			b, sz := op.I("base"), op.I("n")
-			ev["base"], ev["n"] = b, sz
+			base = b
+			ev["n"] = sz
 			abn = guard(func() {
 				s := iohelper.NewSectionWriter(under, b, sz)
 				w, full, sized = s, s, s
 			})
 		case "NewAt":
 			b := op.I("base")
-			ev["base"] = b
+			base = b
+			room := maxInt64 - b // AtToWriter's section ends at MaxInt64
+			if room > 1<<30 {
+				room = 1 << 30
+			}
+			ev["room"] = room
 			abn = guard(func() {
 				w = iohelper.AtToWriter(under, b)
 				full, _ = w.(swAll)
@@ -132,9 +143,12 @@ func execSW(in In, em *Emitter) {
 		if calls == nil {
 			calls = []J{}
 		}
+		for _, c := range calls {
+			c["off"] = rel(c["off"].(int64))
+		}
 		ev["under"] = calls
 		if c, ok := swCursor(w); ok {
-			ev["cur"] = num(c) // the cursor itself, through the verif hook (besides the Seek probes)
+			ev["cur"] = rel(c) // the cursor itself, through the verif hook (besides the Seek probes)
 		} else {
 			ev["cur"] = -1
 		}
@@ -164,10 +178,29 @@ func genC18(g *Gen) {
 		base := bases[r.Intn(len(bases))]
 		size := sizes[r.Intn(len(sizes))]
 		at := r.Intn(5) == 0
+		if r.Intn(6) == 0 { // a section right below MaxInt64: base + n must not overflow
+			const maxInt64 = int64(^uint64(0) >> 1)
+			gap := []int64{0, 1, 10, 50, 64, 100, 1000}[r.Intn(7)]
+			base = maxInt64 - gap - int64(r.Intn(3))*size
+			if base < 0 || size > maxInt64-base {
+				size = maxInt64 - base
+			}
+			if size > 1000 {
+				size = 1000
+			}
+			if at {
+				size = maxInt64 - base // AtToWriter ends at MaxInt64
+				if size > 1<<28 {
+					size = 1 << 28
+				}
+			}
+		}
 		var ops []J
 		if at {
 			ops = append(ops, J{"k": "NewAt", "base": base})
-			size = 1 << 28
+			if base < 1<<40 {
+				size = 1 << 28
+			}
 		} else {
 			ops = append(ops, J{"k": "New", "base": base, "n": size})
 		}
@@ -256,10 +289,24 @@ func genC18(g *Gen) {
 					off = size
 				case 3:
 					off = -base - int64(r.Intn(3)) + 1 // around absolute 0: before the section start when base > 0
+					if base > 1<<28 {
+						off = -int64(r.Intn(5)) - cur // (inputs must stay inside TLC's integers)
+					}
 				case 4:
 					off = -cur + int64(r.Intn(3)) - 1
 				default:
 					off = int64(r.Intn(int(min64(size, 100))+5)) - 2
+				}
+				if base > 1<<40 {
+					// right below MaxInt64 a seek target must stay representable: positions beyond MaxInt64 do not
+					// exist, so the property says nothing about them
+					room := int64(^uint64(0)>>1) - base
+					if wh == 0 && off > room {
+						off = room - int64(r.Intn(2))
+					}
+					if wh != 0 && off > 0 {
+						off = -off
+					}
 				}
 				ops = append(ops, J{"k": "Seek", "off": off, "w": wh})
 				switch wh {
